@@ -239,6 +239,53 @@ def check_tree(acc, w, t, stats=False):
                 acc.viol("composite:statistics_from_samples", case, observed=s, expected=dict(mean=mean, variance=var, num_samples=n))
         except LibRaised as e:
             acc.viol("composite:statistics-raised", case, observed=e.tb)
+        if len(w.space) == 2 ** w.space.shape[1]:
+            drivers(acc, w, t, got, want, case)
+
+
+def drivers(acc, w, t, got, want, case):
+    """The sampling entry points of a composite: sample() and statistics() must evaluate the composite on the
+    very batch(es) ONE chain produced - every batch the state's sample() returned is captured, per-sample
+    expectations are looked up in the (already verified) full-space values."""
+    lookup = {tuple(int(x) for x in r): float(v) for r, v in zip(w.space.tolist(), want)}
+    st = w.st
+    cap = []
+    orig = st.sample
+
+    def wrapped(*a, **k):
+        r = orig(*a, **k)
+        cap.append(r.clone())
+        return r
+    st.sample = wrapped
+    try:
+        torch.manual_seed(3)
+        s0 = w.space[[1, 0, len(w.space) - 1]].clone()
+        v = call(got.sample, st, 2, initial_state=s0, overwrite=True)
+        v = np.asarray(v.numpy() if isinstance(v, torch.Tensor) else v, dtype=float)
+        if len(cap) != 1:
+            acc.viol("composite:sample-entry-point-draws-more-than-one-batch:" + kinds_of(w, t), case, observed=len(cap), expected=1)
+        else:
+            exp = np.array([lookup[tuple(int(x) for x in r)] for r in cap[0].tolist()])
+            if not close(np.broadcast_to(v, exp.shape), exp, 1e-12) or not torch.equal(s0, cap[0]):
+                acc.viol("composite:sample-entry-point-value:" + kinds_of(w, t), case, observed=v, expected=exp)
+        del cap[:]
+        torch.manual_seed(4)
+        sres = call(got.statistics, st, 5, num_chains=2, burn_in=1, steps=1)
+        xs = [lookup[tuple(int(x) for x in r)] for b in cap for r in b.tolist()]
+        n = len(xs)
+        mean = float(np.mean(xs))
+        var = float(np.var(xs, ddof=1))
+        vt = max(1e-10, 1e-13 * abs(mean) / max(np.sqrt(var), 1e-300)) if var > 0 else 1e-10
+        scale = max(1.0, float(np.max(np.abs(xs))))
+        ok = (sres["num_samples"] == n and n >= 5 and close(sres["mean"], mean, 1e-12, at=1e-12 * scale)
+              and close(sres["variance"], var, vt, at=(1e-12 if var > 0 else 1e-14 * max(1.0, abs(mean)) ** 2 * 1e2))
+              and close(sres["std_error"], np.sqrt(var / n), vt, at=(1e-12 if var > 0 else 1e-7 * max(1.0, abs(mean)))))
+        if not ok:
+            acc.viol("composite:statistics-entry-point:" + kinds_of(w, t), case, observed=sres, expected=dict(mean=mean, variance=var, num_samples=n))
+    except LibRaised as e:
+        acc.viol("composite:sampling-entry-point-raised:" + kinds_of(w, t), case, observed=e.tb)
+    finally:
+        del st.sample
 
 
 ONE_SIDED = [("neg",), ("+r", "2"), ("+l", "2"), ("-r", "h"), ("-l", "h"), ("*r", "m1"), ("*l", "f")]
